@@ -404,4 +404,31 @@ def obsNotCompleted (s : Dir D) : List (MObs D) :=
 /-- `[(m.unique_id, m.read()) for m in ds.logs]`: empty when `source/logs` does not exist -/
 def obsLogs (s : Dir D) : KV D := if s.logsDir then s.logs else []
 
+/-! ## `validate()` -/
+
+/-- the four rows of `DataStoreABC.validate()` -/
+structure Validate where
+  correct : Nat
+  incorrect : Nat
+  missing : Nat
+  hasLog : Bool
+  deriving Repr, DecidableEq
+
+/-- `md5 is not None and md5 != get_text_hexdigest(m.read())` (a member whose file is gone counts as wrong; the real
+    `read()` raises there) -/
+def badMd5 [DecidableEq D] (H : D → D) (m : MObs D) : Bool :=
+  match m.md5, m.content with
+  | some h, some c => h != H c
+  | some _, none => true
+  | none, _ => false
+
+/-- `validate()` over `self.members` = completed + not completed (state already populated):
+    `correct = len - missing - wrong`, `incorrect = len - correct - missing`, `Has log = len(self.logs) > 0` -/
+def validateDir [DecidableEq D] (H : D → D) (s : Dir D) : Validate :=
+  let ms := obsCompleted s ++ obsNotCompleted s
+  let missing := ms.countP (fun m => m.md5.isNone)
+  let wrong := ms.countP (badMd5 H)
+  let correct := ms.length - missing - wrong
+  { correct, incorrect := ms.length - correct - missing, missing, hasLog := !(obsLogs s).isEmpty }
+
 end CogentModel.DataStore
